@@ -60,7 +60,7 @@ pub fn is_ambiguous(mut base: u8) -> bool {
 /// Convert an ASCII base into a probability vector
 /// [p(A), p(C), p(T), p(G)]
 pub fn base_to_prob(base: u8) -> [f64; 4] {
-    match base {
+    match base.to_ascii_uppercase() {
         //      (A    C    T    G  )
         b'A' => [1.0, 0.0, 0.0, 0.0],
         b'C' => [0.0, 1.0, 0.0, 0.0],
